@@ -81,6 +81,26 @@ theorem sequence_from_build (commit : Db → EvmState → Db) (pre0 : Pre)
     (runOne commit ops (Ctx.build db env spec pre0)).map (fun p => (p.1, p.2.db)) = runFresh commit pre0 ops db :=
   sequence_eq commit pre0 ops _ (clean_build db env spec pre0) hb
 
+/-- `SpecBlind` holds of the mainnet body of `tx_against_state` as modelled on the journal model of
+C06 (`load_code(caller)?`, then the pure `Env::validate_tx_against_state` on the loaded account), for
+every database view, database-error behaviour and environment check -/
+theorem mainnet_tx_against_state_spec_blind (caller : Env → Addr) (view : Db → Revm.Model.Journal.Db)
+    (dbErr : Db → Addr → Option Err) (check : Env → Acct → Except Err Unit × Acct) (panicErr : Err) :
+    SpecBlind (mainnetTxAgainstState (L1 := L1) caller view dbErr check panicErr) :=
+  mainnetTxAgainstState_specBlind caller view dbErr check panicErr
+
+/-- hence, with the mainnet validation body and EVERY other stage arbitrary, no hypothesis is left -/
+theorem sequence_with_mainnet_validation (commit : Db → EvmState → Db) (pre0 : Pre)
+    (ops : List (Op Db Env Err Pre L1 G LS Act FR ER)) (db : Db) (env : Env) (spec : Nat)
+    (hm : ∀ op ∈ ops, ∃ caller view dbErr check panicErr,
+      op.h.txAgainstState = mainnetTxAgainstState caller view dbErr check panicErr) :
+    (runOne commit ops (Ctx.build db env spec pre0)).map (fun p => (p.1, p.2.db)) = runFresh commit pre0 ops db := by
+  apply sequence_from_build
+  intro op hop
+  obtain ⟨caller, view, dbErr, check, pe, h⟩ := hm op hop
+  rw [h]
+  exact mainnetTxAgainstState_specBlind caller view dbErr check pe
+
 /-- `finalize` (called by `output`) resets transient storage, journal and depth and takes state and
 logs, but KEEPS the warm preloaded addresses; `clear` (called last on every path) drops them -/
 theorem finalize_keeps_preloaded_clear_drops (j : JState) :
@@ -126,6 +146,23 @@ context on the way: the statement of the sequence theorem is not about `none = n
 theorem sample_history_runs :
     (runFresh Script.commitDb [] sampleOps 0).map (fun p => (p.1.length, p.2)) = some (5, 1) := by
   decide
+
+/-- a handler with the mainnet validation body (over an empty database view) and scripted other stages -/
+def mainnetLike : Handler Nat Script.SEnv String (List Addr) Empty Nat Nat Nat Nat String :=
+  { Script.handler 17 with
+    txAgainstState := mainnetTxAgainstState (fun e => e.caller)
+      (fun _ => { basic := fun _ => none, storage := fun _ _ => 0, delegate := fun _ => none })
+      (fun _ _ => none) (fun _ acc => (.ok (), acc)) "panic" }
+
+example : ∀ op ∈ [({ h := mainnetLike, rebuilt := false, env := envOk, entry := .transactCommit, fuel := 5 } :
+      Op Nat Script.SEnv String (List Addr) Empty Nat Nat Nat Nat String)],
+    ∃ caller view dbErr check panicErr,
+      op.h.txAgainstState = mainnetTxAgainstState caller view dbErr check panicErr := by
+  intro op hop
+  simp only [List.mem_cons, List.mem_nil_iff, or_false] at hop
+  subst hop
+  exact ⟨fun e => e.caller, fun _ => { basic := fun _ => none, storage := fun _ _ => 0, delegate := fun _ => none },
+    fun _ _ => none, fun _ acc => (.ok (), acc), "panic", rfl⟩
 
 def isErr : CallResult String String → Bool
   | .tx (.error _) | .commit (.error _) | .pre (.error _) => true
